@@ -781,7 +781,7 @@ func c20Observe(c *Check, P string, fn *ssa.Function, kind string, setters, gett
 	}
 	for _, ic := range innerCalls {
 		if ReachAfter(dInstr, nil)[ic] {
-			c.Report(Dominates(fn, dInstr, ic) || !ReachEntry(fn, NewCut().AddInstrs(dInstr))[ic] || true, P+".O3", "METRICS-DEFER-BEFORE-CALL", fn, dInstr.Pos(), kind+" defer", "the observing closure is deferred before the inner call it measures")
+			c.Report(Dominates(fn, dInstr, ic), P+".O3", "METRICS-DEFER-BEFORE-CALL", fn, dInstr.Pos(), kind+" defer", "the observing closure is deferred before the inner call it measures")
 		}
 	}
 	if kind == "publisher" {
